@@ -1,6 +1,7 @@
 package c01
 
 import (
+	"math"
 	"encoding/json"
 	"fmt"
 	"os"
@@ -183,9 +184,9 @@ func genPoint(t *rapid.T, c *sem.Case) string {
 		case 2:
 			v = rapid.SampledFrom([]int64{0, 1, -1, 1 << 53, -(1 << 62), 9223372036854775807, -9223372036854775808, 1600000000}).Draw(t, "fi")
 		case 3:
-			v = rapid.SampledFrom([]float64{0, 1.5, -2.5, 1e308, 1e-320}).Draw(t, "ff")
+			v = rapid.SampledFrom([]float64{0, 1.5, -2.5, 1e308, 1e-320, math.NaN(), math.Inf(1), math.Inf(-1), math.Copysign(0, -1), 9223372036854775808.0, -1e19}).Draw(t, "ff")
 		case 4:
-			v = rapid.SampledFrom([]string{"", "a", "hello world 42", "héllo", "\xff\xfe", "a\x00b", "{\"a\":[1,2]}", "<a><b id=\"7\">t</b></a>", "2021-05-27 06:54:14.760 UTC", "%zz", "select * from t where id=1", "127.0.0.1 GET 200", "1600000000"}).Draw(t, "fs")
+			v = rapid.SampledFrom([]string{"", "a", "hello world 42", "héllo", "\xff\xfe", "a\x00b", "{\"a\":[1,2]}", "<a><b id=\"7\">t</b></a>", "2021-05-27 06:54:14.760 UTC", "%zz", "select * from t where id=1", "127.0.0.1 GET 200", "1600000000", "NaN", "-Inf", "1e400", "0x1F", "9223372036854775808", "a\U0001F600"}).Draw(t, "fs")
 		default:
 			v = rapid.String().Draw(t, "fany")
 		}
@@ -523,9 +524,11 @@ func TestFixedHostile(t *testing.T) {
 		"grok(_, \"%{INT:f1:int} %{WORD:t1}\")\ngrok(f1, \"%{NUMBER:message:float}\", false)", "xml(message, \"//b/@id\", a.b)\nxml(f1, \"(\", x)", "a = -true\nb = +false\nadd_key(a)\nadd_key(b)",
 		"if len() {\n}", "if true {\n} elif load_json() {\n}", "if trim() { }", "if false { } elif len(load_json()) > 0 { }\nx = 1", "for ; len(); { }", "for x in trim() { }",
 		"datetime(f1, \"S\", \"RFC3339\")", "datetime(f1, \"MS\", \"ANSIC\")", "datetime(message, \"Ms\", \"RFC3339\")\ndatetime(a, \"mS\", \"RFC822\")", "datetime(f1, \"\", \"\")",
+		"inf2 = 1.0e308 * 10.0\nadd_key(k, inf2 - inf2)\ncast(k, \"int\")\ncast(k, \"str\")\ncast(k, \"bool\")", "cast(message, \"int\")\ncast(f1, \"int\")\ncast(a, \"int\")", "nn = nan\nadd_key(k, nn)\ncast(k, \"int\")\nx = nn <= 1\ny = inf - inf",
+		"z = 0\nfor a in [[1,2]] { for b in a { c = b / z } }", "l1 = [1]\nfor a in \"ab\" { for b in {\"k\": 1} { if true { c = l1[5] } } }", "for a in [1] { if true { for b in [2] { for c in \"x\" { d = 1 + \"s\" } } } }",
 		"a = 1\na += \"s\"", "a = nil\na -= 1", "u %= 0 - 0", "l = [0]\nl[0] /= l[0]", "set_measurement(message, true)\nset_measurement(a.b, true)\nset_measurement(1 + 1)",
 	}
-	points := []map[string]any{{}, {"message": "str", "a": int64(5), "f1": 2.5}, {"message": "hello 42", "f1": int64(1600000000)}, {"message": int64(5), "f1": "2021-05-27 06:54:14.760 UTC", "a": nil}, {"message": "\xff<a><b id=\"1\"/></a>", "k1": 1.5}}
+	points := []map[string]any{{}, {"message": "NaN", "a": math.NaN(), "f1": math.Inf(-1), "k1": "-Infinity"}, {"message": "str", "a": int64(5), "f1": 2.5}, {"message": "hello 42", "f1": int64(1600000000)}, {"message": int64(5), "f1": "2021-05-27 06:54:14.760 UTC", "a": nil}, {"message": "\xff<a><b id=\"1\"/></a>", "k1": 1.5}}
 	for i, src := range progs {
 		stmts, err, _ := impl.Parse("main.p", src)
 		if err != nil {
